@@ -7,7 +7,7 @@ import copy
 import json
 import time
 
-FAULT_OPS = ("clear", "clear_typing", "shrink", "mutate_result", "mutate_input", "clock", "zone", "reclimit")
+FAULT_OPS = ("clear", "clear_typing", "shrink", "mutate_result", "mutate_input", "clock", "zone", "reclimit", "rewrite_slot")
 
 
 def _refs_of(step) -> set:
